@@ -135,3 +135,15 @@ def work_convert(x):
 
 class CallbackError(Exception):
     """Raised by a result callback and listed in callbacks_propagate."""
+
+
+def sleepy_catch(x):
+    """Survives the soft limit and keeps running."""
+    import time
+    from billiard.exceptions import SoftTimeLimitExceeded
+    _mark('sleepy_catch', x)
+    try:
+        time.sleep(x)
+    except SoftTimeLimitExceeded:
+        time.sleep(x)
+    return ('slept', x)
